@@ -13,6 +13,10 @@ over a number algebra), DecNatFees.tla (amounts up to MAX_MONEY as decimal digit
 3. code -> spec (V): a seeded driver calls `fee_required` and `ChangeStrategy::compute_balance`
    (single- and multi-output strategies) on random, boundary-tuned and swept requests, including
    MAX_MONEY-scale amounts; TLC validates every logged record against the postconditions.
+4. the same driver source built a second time against the wallet crates WITH `transparent-inputs`
+   (package h_wallet_t, binary c07_driver_t): ZIP 320 steps (ephemeral input / ephemeral output), the opt-in
+   transparent change policy (transparent change, dust and zero change at the thresholds) and mixes with
+   shielded value; every record is validated by the same Trace_ChangeStrategy.
 """
 import json
 import os
@@ -22,6 +26,7 @@ from . import lib
 
 AREA = "Fees"
 TRACE_PARTS = 6
+TRACE_PARTS_T = 3
 KNOWN_ORCHARD = "C07-orchard-outputs-after-nu63"
 
 
@@ -155,7 +160,7 @@ def mc_jobs(ctx, d, pool):
 
     pool.submit("decnat", 1, decnat)
     pool.submit("padding", 3, padding)
-    slices = 48 if ctx.quick() else 4
+    slices = 64 if ctx.quick() else 4
     chosen = [(ctx.seed * 2 + j) % slices for j in range(2)] if ctx.quick() else list(range(slices))
     for s in chosen:
         name = wrapper(d, "MC_ChangeStrategy", "MC_ChangeStrategy_s%d" % s)
@@ -167,7 +172,7 @@ def mc_jobs(ctx, d, pool):
 
         def job(name=name, cfg=cfg):
             r = lib.tlc(ctx, d, name, cfg, workers=2, timeout=3000, coverage=False)
-            # 576 policy/pattern combinations, each completed in ~2 400 ways, 1/slices of them sampled
+            # 576 policy/pattern combinations, each completed in ~3 200 ways, 1/slices of them sampled
             if r.depth != 3 or r.distinct < 577 + 576 * 2000 // slices:
                 raise lib.ToolError("vacuity: %s explored %d states, depth %d" % (name, r.distinct, r.depth))
             return [r]
@@ -206,10 +211,19 @@ def judge_fee(ctx, res):
 # ------------------------------------------------------------------------------------------------
 # trace validation
 
-def gen_trace(ctx, bindir, path, n, sweep):
-    p = lib.run_bin(os.path.join(bindir, "c07_driver"), ["trace", path, str(n), str(sweep)],
+def gen_trace(ctx, bindir, path, n, sweep, transparent=False):
+    p = lib.run_bin(os.path.join(bindir, "c07_driver_t" if transparent else "c07_driver"),
+                    ["trace-t" if transparent else "trace", path, str(n), str(sweep)],
                     env_extra={"VERIF_SEED": str(ctx.seed)}, timeout=1800)
     return json.loads(p.stdout.strip().splitlines()[-1])
+
+
+def build(ctx):
+    """The driver source is built twice: baseline feature set (h_tx) and wallet crates with transparent-inputs
+    (h_wallet_t). Both land in the same directory."""
+    bindir = lib.cargo_build("h_tx", ["c07_driver"])
+    lib.cargo_build("h_wallet_t", ["c07_driver_t"])
+    return bindir
 
 
 def read_trace(path):
@@ -314,6 +328,111 @@ def trace_stats(recs):
     return st, len(sigs)
 
 
+def ceil_div(a, b):
+    return (a + b - 1) // b
+
+
+def transparent_only_fee(q, extra_out_bytes):
+    """ZIP 317 fee of a request without any shielded input or output (coverage statistics only, never a verdict)."""
+    r = q["rule"]
+    tin = sum(max(x, 0) for x in q["tinS"]) + (150 if q["ephK"] == "in" else 0)
+    tout = sum(q["toutS"]) + (34 if q["ephK"] == "out" else 0) + extra_out_bytes
+    return r["m"] * max(r["g"], max(ceil_div(tin, r["pin"]), ceil_div(tout, r["pout"])))
+
+
+SHIELDED_KEYS = ("sin", "sout", "oin", "oout", "iin", "iout")
+
+
+def trace_stats_t(recs):
+    """Coverage of the `transparent-inputs` configuration (vacuity guards of the second trace)."""
+    st = {}
+
+    def inc(k):
+        st[k] = st.get(k, 0) + 1
+    sigs = set()
+    for r in recs:
+        q, o = r["q"], r["o"]
+        if not q["tfeat"]:
+            raise lib.ToolError("c07_driver_t logged a record without tfeat: not built with the transparent feature")
+        inc("out:" + o["k"])
+        sh_count = sum(len(q[k]) for k in SHIELDED_KEYS)
+        sh_value = sum(val(v) for k in SHIELDED_KEYS for v in q[k])
+        eff_memo = q["memo"] and q["ephK"] != "in"
+        may_t = q["tpolicy"] == "allowed" and sh_value == 0 and not eff_memo
+        if may_t and sh_count == 0 and all(x >= 0 for x in q["tinS"]):
+            # the point at which the transparent change would be zero-valued (a property of the request, whatever the answer)
+            tot_in = sum(val(v) for v in q["tinV"]) + (val(q["ephV"]) if q["ephK"] == "in" else 0)
+            tot_out = sum(val(v) for v in q["toutV"]) + (val(q["ephV"]) if q["ephK"] == "out" else 0)
+            f0, f1 = transparent_only_fee(q, 0), transparent_only_fee(q, 34)
+            if f1 > f0 and tot_in == tot_out + f1:
+                inc("request:transparent_change_would_be_zero")
+        if o["k"] == "balance":
+            ch = [c for c in o["change"] if not c["eph"]]
+            listed = [c for c in o["change"] if c["eph"]]
+            tch = [c for c in ch if c["pool"] == "transparent"]
+            if q["ephK"] != "none":
+                inc("balance:ephemeral_" + q["ephK"])
+            if listed:
+                inc("balance:ephemeral_output_listed")
+            if q["ephK"] == "in" and not q["tinV"] and not sh_count:
+                inc("balance:zip320_second_step")
+            if q["ephK"] == "out" and sh_count and len(q["oin"]) == 1 and len(q["iout"]) == 1 and not q["iin"] \
+                    and q["anchorH"] % q["interval"] == 0 and o["dummy"][2] == 1:
+                inc("balance:crossing_shape_with_ephemeral_output_padded")
+            if tch:
+                inc("balance:transparent_change")
+                thr = val(q["thr"]) if q["hasThr"] else q["rule"]["m"]
+                if val(tch[0]["v"]) < thr:
+                    inc("balance:transparent_change_dust_kept")
+                if val(tch[0]["v"]) == thr:
+                    inc("balance:transparent_change_at_threshold")
+                if q["strat"] == "multi" and q["target"] - max(q["notes"], 0) > 1:
+                    inc("balance:transparent_change_not_split")
+            if q["tpolicy"] == "allowed" and ch and not tch:
+                inc("balance:allowed_but_shielded_change")
+                if sh_value > 0:
+                    inc("balance:allowed_but_shielded_value")
+                if sh_value == 0 and eff_memo:
+                    inc("balance:allowed_but_memo")
+            if may_t and not ch and sh_count == 0:
+                fee = val(o["fee"])
+                f0, f1 = transparent_only_fee(q, 0), transparent_only_fee(q, 34)
+                if fee == f1 and f1 > f0:
+                    inc("balance:zero_transparent_change_omitted")
+                elif fee == f0:
+                    inc("balance:transparent_exact_no_change")
+                elif fee > f1 and q["act"] == "addfee":
+                    inc("balance:transparent_dust_folded")
+            sigs.add(("b", len(ch), tuple(sorted(set(c["pool"] for c in ch))), bool(listed), q["ephK"], q["tpolicy"],
+                      q["act"], q["strat"], tuple(o["dummy"]),
+                      tuple(min(len(q[k]), 2) for k in ("tinV", "toutV") + SHIELDED_KEYS)))
+        else:
+            if o["k"] == "insufficient":
+                if q["ephK"] != "none":
+                    inc("insufficient:ephemeral_" + q["ephK"])
+                if may_t:
+                    inc("insufficient:transparent_change_allowed")
+            sigs.add((o["k"], o["e"] if o["k"] == "strategy" else "", q["ephK"], q["tpolicy"], q["act"], q["strat"],
+                      tuple(min(len(q[k]), 2) for k in ("tinV", "toutV") + SHIELDED_KEYS)))
+    return st, len(sigs)
+
+
+# minimum counts in the trace of the `transparent-inputs` build (quick, thorough)
+REQUIRED_COVERAGE_T = {
+    "out:balance": (3000, 20000), "out:insufficient": (1500, 10000), "out:dust": (100, 1000),
+    "balance:ephemeral_in": (500, 3000), "balance:ephemeral_out": (1000, 5000),
+    "balance:ephemeral_output_listed": (1000, 5000), "balance:zip320_second_step": (300, 2000),
+    "balance:crossing_shape_with_ephemeral_output_padded": (20, 100),
+    "balance:transparent_change": (500, 3000), "balance:transparent_change_dust_kept": (20, 100),
+    "balance:transparent_change_at_threshold": (10, 50), "balance:transparent_change_not_split": (20, 100),
+    "balance:allowed_but_shielded_value": (200, 1000), "balance:allowed_but_memo": (5, 30),
+    "request:transparent_change_would_be_zero": (10, 50), "balance:transparent_exact_no_change": (10, 50),
+    "balance:transparent_dust_folded": (10, 50),
+    "insufficient:ephemeral_in": (200, 1000), "insufficient:ephemeral_out": (300, 2000),
+    "insufficient:transparent_change_allowed": (300, 2000),
+}
+
+
 REQUIRED_COVERAGE = [
     "out:balance", "out:insufficient", "out:dust", "out:strategy", "out:bundle", "max_money_scale",
     "balance:change_notes=1", "balance:change_notes=2", "balance:change_notes=3", "balance:addfee_no_value_change",
@@ -324,7 +443,7 @@ REQUIRED_COVERAGE = [
 
 
 def run(ctx):
-    bindir = lib.cargo_build("h_tx", ["c07_driver"])
+    bindir = build(ctx)
     d = stage(ctx)
     pool = Pool(8)
 
@@ -340,10 +459,23 @@ def run(ctx):
     if len(recs) != info["records"]:
         raise lib.ToolError("driver reported %d records, trace has %d" % (info["records"], len(recs)))
     stats, sig_count = trace_stats(recs)
+    # (vacuity is judged after the validation: a rejected record is the stronger verdict)
+    vacuity = []
     missing = [k for k in REQUIRED_COVERAGE if stats.get(k, 0) == 0]
     if missing:
-        raise lib.ToolError("vacuity: the trace never exercises %s" % ", ".join(missing))
-    n_known = stats.get("known:orchard_outputs_after_nu63_pool_gains", 0)
+        vacuity.append("the trace never exercises %s" % ", ".join(missing))
+    # (4) the same with the wallet crates' transparent-inputs
+    tpath_t = ctx.path("trace_t.ndjson")
+    info_t = gen_trace(ctx, bindir, tpath_t, 3000 if ctx.quick() else 40000, 1 if ctx.quick() else 2, transparent=True)
+    recs_t = read_trace(tpath_t)
+    if len(recs_t) != info_t["records"]:
+        raise lib.ToolError("driver (transparent) reported %d records, trace has %d" % (info_t["records"], len(recs_t)))
+    stats_t, sig_count_t = trace_stats_t(recs_t)
+    low = ["%s (%d < %d)" % (k, stats_t.get(k, 0), v[0 if ctx.quick() else 1]) for k, v in sorted(REQUIRED_COVERAGE_T.items())
+           if stats_t.get(k, 0) < v[0 if ctx.quick() else 1]]
+    if low:
+        vacuity.append("the trace of the transparent-inputs build exercises too little of %s" % ", ".join(low))
+    n_known = stats.get("known:orchard_outputs_after_nu63_pool_gains", 0) + sum(1 for r in recs_t if in_known_orchard_class(r))
     if n_known and known_env()["C07_KNOWN_ORCHARD_OUTPUTS"] == "1":
         ex = next(r for r in recs if in_known_orchard_class(r))
         pq, po = pretty(ex["q"]), pretty(ex["o"])
@@ -364,6 +496,14 @@ def run(ctx):
             continue
         name = wrapper(d, "Trace_ChangeStrategy", "Trace_ChangeStrategy_p%d" % i)
         pool.submit(name, 1, lambda name=name, sub=sub, i=i: validate_part(ctx, d, name, sub, ctx.path("part%d.ndjson" % i)))
+    parts_t = TRACE_PARTS_T if ctx.quick() else 2 * TRACE_PARTS_T
+    chunk = (len(recs_t) + parts_t - 1) // parts_t
+    for i in range(parts_t):
+        sub = recs_t[i * chunk:(i + 1) * chunk]
+        if not sub:
+            continue
+        name = wrapper(d, "Trace_ChangeStrategy", "Trace_ChangeStrategy_t%d" % i)
+        pool.submit(name, 1, lambda name=name, sub=sub, i=i: validate_part(ctx, d, name, sub, ctx.path("part_t%d.ndjson" % i)))
     results = pool.join()
 
     # (2) spec -> code on the fee rule
@@ -376,7 +516,7 @@ def run(ctx):
 
     accepted = 0
     for name, res in sorted(results.items()):
-        if name.startswith("Trace_ChangeStrategy_p"):
+        if name.startswith("Trace_ChangeStrategy_p") or name.startswith("Trace_ChangeStrategy_t"):
             acc, rejected, rs = res
             accepted += acc
             for r in rs:
@@ -385,8 +525,10 @@ def run(ctx):
         elif name != "fee_cases":
             for r in res:
                 lib.account_tlc(ctx, r)
-    if not ctx.violations and accepted != len(recs):
-        raise lib.ToolError("validated %d of %d trace records" % (accepted, len(recs)))
+    if not ctx.violations and accepted != len(recs) + len(recs_t):
+        raise lib.ToolError("validated %d of %d trace records" % (accepted, len(recs) + len(recs_t)))
+    if not ctx.violations and vacuity:
+        raise lib.ToolError("vacuity: " + "; ".join(vacuity))
 
     ctx.traces = accepted + fres["calls"]
     bal = [r for r in recs if r["a"] == "bal"]
@@ -395,21 +537,31 @@ def run(ctx):
             if r["o"]["k"] == pick and (pick != "balance" or len(r["o"]["change"]) > 1):
                 ctx.add_sample(pretty(r))
                 break
+    for pick in ("balance:transparent_change", "balance:ephemeral_output_listed"):
+        for r in recs_t:
+            if r["o"]["k"] == "balance" and ((pick.endswith("transparent_change") and any(c["pool"] == "transparent" and not c["eph"] for c in r["o"]["change"]))
+                                             or (pick.endswith("listed") and any(c["eph"] for c in r["o"]["change"]) and r["q"]["sin"])):
+                ctx.add_sample(pretty(r))
+                break
     ctx.add_sample({"fee_case": cases[len(cases) // 2]})
     ctx.extra["trace_coverage"] = stats
+    ctx.extra["trace_coverage_transparent_inputs"] = stats_t
     ctx.extra["fee_replay"] = {"cases": fres["cases"], "calls": fres["calls"], "distinct_results": fres["distinct_results"]}
     lib.mc_evidence(
         ctx,
         rule="V: every record of a seeded trace of real fee_required / compute_balance calls (random, boundary-tuned, "
              "deterministic sweep; MAX_MONEY-scale amounts in decimal digit arithmetic) is checked by TLC against "
-             "ChangeStrategy!Allowed / Zip317!Fee; R: every case of MC_Zip317's exhaustive domain is executed on three "
+             "ChangeStrategy!Allowed / Zip317!Fee, and so is every record of a second trace written by the same driver built "
+             "with the wallet crates' transparent-inputs (ZIP 320 ephemeral input/output, opt-in transparent change); R: every case of MC_Zip317's exhaustive domain is executed on three "
              "fee-rule implementations; distinct_nontrivial = distinct (outcome class, change count and pools, dust "
              "action, regime, padding, strategy, magnitude, flow shape) signatures in the trace",
-        evaluations=ctx.traces, distinct_nontrivial=sig_count,
-        extra={"exhaustive": False, "trace_records": len(recs), "fee_cases": len(cases)},
+        evaluations=ctx.traces, distinct_nontrivial=sig_count + sig_count_t,
+        extra={"exhaustive": False, "trace_records": len(recs), "trace_records_transparent_inputs": len(recs_t),
+               "fee_cases": len(cases)},
         assumptions=[
-            "harness built with the baseline feature set of zcash_client_backend (no transparent-inputs): transparent "
-            "change and ephemeral change values are specified but not produced by this build",
+            "two builds of one driver source: the baseline feature set of zcash_client_backend (h_tx) and the wallet crates "
+            "with transparent-inputs (h_wallet_t: opt-in transparent change policy, transparent change values, the ephemeral "
+            "output of a ZIP 320 step listed among the change values); the fee-rule replay (R) uses the baseline build",
             "padding rules of sapling-crypto 0.7.0 / orchard 0.15.3 and the canonical-crossing rule are transcribed as the "
             "specification's environment",
             "default dust threshold = marginal fee; change notes of a split may be below the dust threshold when the "
@@ -421,7 +573,7 @@ def run(ctx):
 # ------------------------------------------------------------------------------------------------
 
 def replay(ctx, path):
-    bindir = lib.cargo_build("h_tx", ["c07_driver"])
+    bindir = build(ctx)
     with open(path) as f:
         rep = json.load(f)
     if rep.get("kind") == "fee_case":
@@ -437,7 +589,9 @@ def replay(ctx, path):
     rp = ctx.path("replay_req.ndjson")
     write_trace(rp, [rep["record"]])
     out = ctx.path("replay_trace.ndjson")
-    lib.run_bin(os.path.join(bindir, "c07_driver"), ["exec", rp, out], timeout=600)
+    # a record of the transparent-inputs build is re-executed by that build
+    tfeat = rep["record"].get("a") == "bal" and rep["record"]["q"].get("tfeat", False)
+    lib.run_bin(os.path.join(bindir, "c07_driver_t" if tfeat else "c07_driver"), ["exec", rp, out], timeout=600)
     recs = read_trace(out)
     acc, rejected, rs = validate_part(ctx, d, "Trace_ChangeStrategy", recs, ctx.path("replay_part.ndjson"))
     report_rejections(ctx, rejected)
@@ -445,10 +599,99 @@ def replay(ctx, path):
         lib.log("replay: the re-executed call is now allowed by the specification: %s" % json.dumps(pretty(recs[0]["o"] if "o" in recs[0] else recs[0]))[:600])
 
 
+def selftest_transparent(ctx, bindir, d):
+    """Binding of the trace of the `transparent-inputs` build: corruptions of the ephemeral entry, of transparent
+    change and of the refusal law must each be rejected at their index."""
+    tpath = ctx.path("self_t.ndjson")
+    gen_trace(ctx, bindir, tpath, 0, 1, transparent=True)
+    allrecs = read_trace(tpath)
+
+    def bal(r):
+        return r["o"]["k"] == "balance"
+
+    def real(r):
+        return [c for c in r["o"]["change"] if not c["eph"]]
+
+    def std(r):
+        return r["q"]["rule"]["m"] == 5000
+
+    def sh_value(r):
+        return sum(val(v) for k in SHIELDED_KEYS for v in r["q"][k])
+    wanted = {
+        "eph_out": lambda r: bal(r) and r["q"]["ephK"] == "out" and r["q"]["sin"] and any(c["eph"] for c in r["o"]["change"]),
+        "zero_omitted": lambda r: bal(r) and std(r) and r["q"]["tpolicy"] == "allowed" and not r["o"]["change"] and sh_value(r) == 0
+        and not sum(len(r["q"][k]) for k in SHIELDED_KEYS) and not r["q"]["memo"] and r["q"]["act"] == "reject"
+        and val(r["o"]["fee"]) == transparent_only_fee(r["q"], 34) > transparent_only_fee(r["q"], 0),
+        "shielded_mix": lambda r: bal(r) and r["q"]["tpolicy"] == "allowed" and sh_value(r) > 0 and len(real(r)) == 1
+        and real(r)[0]["pool"] != "transparent" and val(real(r)[0]["v"]) > 20000,
+        "eph_in": lambda r: bal(r) and std(r) and r["q"]["ephK"] == "in" and not r["q"]["tinV"] and len(real(r)) == 1
+        and val(real(r)[0]["v"]) > 20000 and r["q"]["act"] == "reject",
+        "dust_kept": lambda r: bal(r) and r["q"]["act"] == "allow" and len(real(r)) == 1 and real(r)[0]["pool"] == "transparent"
+        and 0 < val(real(r)[0]["v"]) < (val(r["q"]["thr"]) if r["q"]["hasThr"] else r["q"]["rule"]["m"]),
+        "refused_eph_out": lambda r: r["o"]["k"] == "insufficient" and std(r) and r["q"]["ephK"] == "out" and r["q"]["act"] != "reject"
+        and val(r["q"]["ephV"]) % 5000 == 0 and val(r["q"]["ephV"]) > 0,
+    }
+    recs, at = list(allrecs[:200]), {}
+    for name, pred in wanted.items():
+        hit = next((r for r in allrecs if pred(r)), None)
+        if hit is None:
+            raise lib.ToolError("selftest (transparent): no record of kind %s" % name)
+        at[name] = len(recs)
+        recs.append(hit)
+    recs += allrecs[200:230]
+    acc, rejected, _ = validate_part(ctx, d, "Trace_ChangeStrategy", recs, ctx.path("self_t_part.ndjson"))
+    if rejected or acc != len(recs):
+        raise lib.ToolError("selftest (transparent): fresh trace not accepted")
+
+    def copy(name):
+        return json.loads(json.dumps(recs[at[name]]))
+    corruptions = []
+    c = copy("eph_out"); c["o"]["change"] = [x for x in c["o"]["change"] if not x["eph"]]
+    corruptions.append(("ephemeral output not listed among the change values", "eph_out", c))
+    c = copy("eph_out"); c["o"]["change"].append([x for x in c["o"]["change"] if x["eph"]][0])
+    corruptions.append(("ephemeral output listed twice", "eph_out", c))
+    c = copy("eph_out")
+    for x in c["o"]["change"]:
+        if x["eph"]:
+            x["eph"] = False
+    corruptions.append(("ephemeral output presented as transparent change", "eph_out", c))
+    c = copy("zero_omitted"); c["o"]["change"] = [{"pool": "transparent", "v": [], "memo": False, "eph": False}]
+    corruptions.append(("zero-valued transparent change kept as an output", "zero_omitted", c))
+    c = copy("zero_omitted"); c["q"]["tpolicy"] = "shield"
+    corruptions.append(("fee of an omitted transparent change output charged although the policy shields change", "zero_omitted", c))
+    c = copy("shielded_mix")
+    for x in c["o"]["change"]:
+        if not x["eph"]:
+            x["pool"] = "transparent"
+    corruptions.append(("transparent change although the flows carry shielded value", "shielded_mix", c))
+    c = copy("eph_in")
+    c["o"]["fee"] = dig(val(c["o"]["fee"]) - 5000)
+    for x in c["o"]["change"]:
+        if not x["eph"]:
+            x["v"] = dig(val(x["v"]) + 5000)
+    corruptions.append(("one marginal fee moved into the change of a step with an ephemeral input", "eph_in", c))
+    c = copy("dust_kept"); c["q"]["act"] = "reject"
+    corruptions.append(("dust-valued transparent change under DustAction::Reject", "dust_kept", c))
+    c = copy("refused_eph_out"); c["o"]["required"] = dig(val(c["o"]["required"]) - val(c["q"]["ephV"]))
+    corruptions.append(("refusal whose required amount leaves out the ephemeral output", "refused_eph_out", c))
+    for what, name, c in corruptions:
+        i = at[name]
+        bad = list(recs)
+        bad[i] = c
+        p = ctx.path("self_t_bad.ndjson")
+        write_trace(p, bad)
+        ok, n, detail, r = lib.tlc_validate(ctx, d, "Trace_ChangeStrategy", "Trace_ChangeStrategy.cfg", p, timeout=900,
+                                            env_extra=known_env())
+        if ok or n != i + 1:
+            raise lib.ToolError("selftest (transparent): corruption not rejected at its index (%s; record %d, verdict %s %s)"
+                                % (what, i + 1, ok, n))
+        lib.log("selftest ok (transparent-inputs build): %s -> rejected at record %d" % (what, n))
+
+
 def selftest(ctx):
     """Binding demonstration. V: corrupted fields of a fresh trace must be rejected at their index,
     a shortened trace must be noticed; R: a perturbed expected fee must be reported."""
-    bindir = lib.cargo_build("h_tx", ["c07_driver"])
+    bindir = build(ctx)
     d = stage(ctx)
     tpath = ctx.path("self.ndjson")
     info = gen_trace(ctx, bindir, tpath, 1500, 0)
@@ -513,7 +756,8 @@ def selftest(ctx):
                       "hasThr": False, "thr": [], "fallback": "sapling", "memo": False, "ephK": "none", "ephV": [],
                       "targetH": 350, "nu5H": 100, "nu63H": 200, "anchorH": 143, "interval": 144, "ov3": True, "ovKind": 2,
                       "sapType": "default", "tinV": [], "tinS": [], "tinK": [], "toutV": [], "toutS": [], "toutL": [],
-                      "sin": [dig(50000)], "sout": [], "oin": [dig(100000)], "oout": [dig(60000)], "iin": [], "iout": []})
+                      "sin": [dig(50000)], "sout": [], "oin": [dig(100000)], "oout": [dig(60000)], "iin": [], "iout": [],
+                      "tpolicy": "shield"})
     rq, ro = ctx.path("self_known_req.ndjson"), ctx.path("self_known.ndjson")
     write_trace(rq, [tmpl])
     lib.run_bin(os.path.join(bindir, "c07_driver"), ["exec", rq, ro], timeout=600)
@@ -534,6 +778,7 @@ def selftest(ctx):
     if acc == info["records"]:
         raise lib.ToolError("selftest: a dropped record went unnoticed")
     lib.log("selftest ok: dropped record noticed (%d of %d)" % (acc, info["records"]))
+    selftest_transparent(ctx, bindir, d)
     # R: perturb one expected fee
     write_cfg(os.path.join(d, "Emit_Zip317.cfg"), ["SPECIFICATION Spec", "CONSTANT Emit = TRUE", "CHECK_DEADLOCK FALSE"])
     r = lib.tlc(ctx, d, "MC_Zip317", "Emit_Zip317.cfg", workers=1, timeout=1500, coverage=False)
